@@ -84,7 +84,7 @@ class Cmp:
     (kind 'b'), or is tested for equality with `boundary` (kind 'eq')."""
 
     __slots__ = ("lhs", "rhs", "kind", "boundary", "loc", "bb", "raw", "lex", "rex", "validating", "switch_bb",
-                 "op", "dest")
+                 "op", "dest", "nop")
 
     def key(self):
         return (self.lhs, self.rhs, self.kind, self.boundary)
@@ -111,6 +111,7 @@ def normalise_cmp(op, a, b, loc="?", bb=None):
     c = Cmp()
     c.loc = loc
     c.bb = bb
+    c.nop = op          # operator after moving a constant operand to the right-hand side
     c.raw = "%s %s %s" % (X.render(a), op, X.render(b))
     c.lex, c.rex = A, B
     t = kb - ka     # D = A - B  OP  t
